@@ -3,9 +3,7 @@ import ElvModel.C37.Model
 namespace C37
 open Go
 
-/-- op: `ctx <hex src> <from> <to>` → `sl sc el ec <hex body> <hex head> <hex tail> <range>` | `PANIC` -/
-def stepLine : List String → String
-  | ["ctx", hsrc, sf, st] =>
+def ctxLine (hsrc sf st : String) : String :=
     match hexDecode hsrc, sf.toInt?, st.toInt? with
     | some src, some f, some t =>
       match getContextDetails src f t with
@@ -13,6 +11,13 @@ def stepLine : List String → String
       | .exc e => s!"EXC {e}"
       | .panic _ => "PANIC"
     | _, _, _ => "bad-op"
+
+/-- op: `ctx <hex src> <from> <to>` → `sl sc el ec <hex body> <hex head> <hex tail> <range>` | `PANIC`;
+op `e2e <hex src> <from> <to> <kind>`: the same computation (the implementation side
+takes the Context from a real parse error / compilation error / traceback). -/
+def stepLine : List String → String
+  | ["ctx", hsrc, sf, st] => ctxLine hsrc sf st
+  | ["e2e", hsrc, sf, st, _kind] => ctxLine hsrc sf st
   | _ => "bad-op"
 
 def driver : Driver := Driver.pure stepLine
